@@ -155,12 +155,12 @@ def run(ctx):
     # crossover probabilities ASSIGNED FROM A GENETIC MAP (Haldane): the map's distances are -ln(1-2p)/2, so the declared
     # probabilities are the layout's; the matrix was built with other genetic positions and annotated with another map first
     # (a revised map must replace whatever positions the matrix held)
-    def map_annotated_parents(xoprob):
+    def map_annotated_parents(xoprob, first_label=1):
         from pybrops.popgen.gmat.DensePhasedGenotypeMatrix import DensePhasedGenotypeMatrix
         from pybrops.popgen.gmap.StandardGeneticMap import StandardGeneticMap
         from pybrops.popgen.gmap.HaldaneMapFunction import HaldaneMapFunction
         Lx = len(xoprob)
-        chrgrp = np.cumsum([1 if p == 0.5 else 0 for p in xoprob]).astype("int64")
+        chrgrp = np.cumsum([1 if p == 0.5 else 0 for p in xoprob]).astype("int64") - 1 + first_label   # chromosome numbering may start at 0
         phy = np.arange(10, 10 + 7 * Lx, 7, dtype="int64")
         gen = np.zeros(Lx)
         for j in range(1, Lx):
@@ -184,7 +184,7 @@ def run(ctx):
         row = [0, 1, 2, 3][:npar]
         def runm(nn, seed, cls=cls, pkey=pkey, xoprob=xoprob, row=row):
             g = np.random.default_rng(seed)
-            pg = map_annotated_parents(xoprob)
+            pg = map_annotated_parents(xoprob, 0 if pkey.endswith("dh") else 1)
             out = cls(rng=g).mate(pg, np.array([row]), 1, nn, nself=0) if pkey.endswith("dh") else \
                 cls(rng=g).mate(pg, np.array([row]), nn, 1, nself=0)
             return source_matrix(pkey, out.mat, row)
